@@ -635,7 +635,11 @@ def c10(tier, seed):
         off = rnd.random() < 0.3
         levels = rnd.choice(ledger.LEVEL_LISTS)
         pack0 = [ledger.random_scenario(rnd, rnd.randint(4, 10), policy, off, levels, p_weird=0.6) for _ in range(5)]
-        jobs.append((pack0, ESTIMATORS[n % 3], seed + n))
+        if n % 3 == 1:
+            # the default configuration: outlier models on (more than 20 reporting units through the ballast state)
+            for sc in pack0:
+                sc["optT"] = sc["optM"] = True
+        jobs.append((pack0, ESTIMATORS[n % 3] if n % 3 != 1 else ESTIMATORS[(n // 3) % 3], seed + n))
     # large gaussian scenarios: counties with their own calibration model next to counties that fall back, so that a
     # group-level floor taken from another group's partial counts would show
     for k in range(4 if tier == "quick" else 20):
@@ -654,6 +658,8 @@ def c10(tier, seed):
     for t in traces:
         run.witness("perturbed_" + t["unit_kind"])
         run.witness("pair_" + t["sc"]["estimator"])
+        if t["sc"].get("optT") and t["obs0"].get("calledT"):
+            run.witness("pair_with_outlier_models_on")
     hjobs = [(seed + k, ["nonparametric", "gaussian"][k % 2]) for k in range(4 if tier == "quick" else 24)]
     for rec in common.pool().map(_job_historical, hjobs, chunksize=1):
         traces.append(rec)
@@ -674,5 +680,5 @@ def c10(tier, seed):
         run.sample({"perturbed_unit": pairs[0]["sc"]["units"][pairs[0]["u"] - 1], "delta": pairs[0]["delta"]})
     run.sample({"historical": [t for t in traces if t["kind"] == "historical"][:1]})
     run.finish(
-        require_witnesses=["perturbed_part", "perturbed_blkRep", "perturbed_zeroNon", "perturbed_unexpRep", "pair_nonparametric", "pair_gaussian", "pair_bootstrap", "historical_pair"]
+        require_witnesses=["perturbed_part", "perturbed_blkRep", "perturbed_zeroNon", "perturbed_unexpRep", "pair_nonparametric", "pair_gaussian", "pair_bootstrap", "pair_with_outlier_models_on", "historical_pair"]
     )
